@@ -72,6 +72,68 @@ class SownSweep:
         return [self.sw.code(kw) for kw in expected_settings(self.sw)]
 
 
+class failing_result_write:
+    """While active, writing a result file of a crop fails like a full disk: stage 'write' -- half of the data
+    reaches the file, then write() raises; stage 'close' -- the data is still buffered when close() fails to
+    flush it (the file stays empty).  Done by replacing `open` in xyzpy.gen.cropping for result files only."""
+
+    def __init__(self, stage):
+        self.stage = stage
+
+    def __enter__(self):
+        import builtins
+        import xyzpy.gen.cropping as M
+        self.M = M
+        self.had = "open" in M.__dict__
+        self.old = M.__dict__.get("open")
+        stage = self.stage
+
+        class Writer:
+            def __init__(self, real):
+                self.real = real
+
+            def write(self, data):
+                if stage == "write":
+                    data = bytes(data)
+                    self.real.write(data[:len(data) // 2])
+                    self.real.flush()
+                    raise OSError(28, "No space left on device (injected)")
+                return len(data)          # buffered, never flushed
+
+            def flush(self):
+                pass
+
+            def close(self):
+                self.real.close()
+                if stage == "close":
+                    raise OSError(28, "No space left on device (injected at close)")
+
+            def __enter__(self):
+                return self
+
+            def __exit__(self, *a):
+                self.close()
+                return False
+
+            def __getattr__(self, n):
+                return getattr(self.real, n)
+
+        def x_open(path, mode="r", *a, **k):
+            real = builtins.open(path, mode, *a, **k)
+            if "xyz-result-" in os.path.basename(str(path)) and "w" in mode:
+                return Writer(real)
+            return real
+        M.open = x_open
+        return self
+
+    def __exit__(self, *exc):
+        if self.had:
+            self.M.open = self.old
+        else:
+            del self.M.open
+        return False
+
+
 class CropRun:
     def __init__(self, tmp, kind, name="cx"):
         self.tmp, self.kind, self.name = tmp, kind, name
@@ -144,6 +206,9 @@ class CropRun:
                     self.crop.grow(tuple(op[1]), num_workers=2)
                 else:
                     self.crop.grow(tuple(op[1]) if len(op[1]) != 1 else op[1][0], verbosity=0)
+            elif kind == "grow_wfail":
+                with failing_result_write(op[2]):
+                    self.crop.grow(tuple(op[1]) if len(op[1]) != 1 else op[1][0], verbosity=0)
             elif kind == "grow_missing":
                 self.crop.grow_missing(verbosity=0)
             elif kind == "delete":
@@ -184,6 +249,8 @@ def coq_op(op):
         return f"OSow {sown.coq_input()} {zopt(bs)} {zopt(nb)}"
     if k == "grow":
         return f"OGrow {zlist(op[1])}"
+    if k == "grow_wfail":
+        return f"OGrowWriteFails {zlist(op[1])}"
     if k == "grow_missing":
         return "OGrowMissing"
     if k == "delete":
